@@ -25,7 +25,7 @@ UNIT = Unit(
                1: """invariant_except_break
                        1 <= lines, lines <= consumed, bytes@.len() <= isize::MAX, bytes@[consumed - 1] == 10u8,
                        0 <= nl, nl + 1 <= consumed <= bytes.len(), bytes@[nl] == 10u8,
-                       lines >= 2 ==> nl + 2 < consumed,
+                       lines >= 2 ==> nl + 3 < consumed,
                    ensures
                        bytes@.len() <= isize::MAX,
                        lines >= 2 ==> mls_bump_ok(bytes@, consumed as int),
